@@ -23,6 +23,39 @@ var (
 	c08Targets []string
 )
 
+// c08Migrations: patches of several changes that move a file from one import to another step by step, and import
+// patches for files with long headers. They are seeds of the mutation workload and are also run as they stand
+// (c08Directed).
+var c08Migrations = []string{
+	"@@\nvar x expression\n@@\n+import \"example.com/new/bar\"\n\n-foo.First(x)\n+bar.First(x)\n\n@@\nvar x expression\n@@\n-import \"example.com/old/foo\"\n+import \"example.com/new/bar\"\n\n-foo.Second(x)\n+bar.Second(x)\n\n@@\n@@\n-neverThere()\n+there()\n",
+	"@@\nvar x expression\n@@\n import \"example.com/old/foo\"\n+import \"example.com/new/bar\"\n\n-foo.First(x)\n+bar.First(x)\n\n@@\nvar x expression\n@@\n-import \"example.com/old/foo\"\n import \"example.com/new/bar\"\n\n-foo.Second(x)\n+bar.Second(x)\n\n@@\n@@\n-Stop\n+Halt\n\n@@\n@@\n-Run\n+Start\n",
+	"@@\nvar x expression\n@@\n-import \"io/ioutil\"\n+import \"os\"\n\n-ioutil.ReadFile(x)\n+os.ReadFile(x)\n",
+	"@@\nvar x expression\n@@\n-import \"io/ioutil\"\n\n-ioutil.ReadFile(x)\n+readFile(x)\n\n@@\n@@\n+import \"example.com/new/bar\"\n\n-legacy(1)\n+bar.New(1)\n",
+}
+
+// c08Directed applies the migration patches as they stand to every target, through the library and the CLI.
+func c08Directed(ctx *core.Ctx, res *core.Result) {
+	for mi, pt := range c08Migrations {
+		f, perr, pan := core.ParsePatch("m.patch", []byte(pt))
+		if pan != "" || perr != nil {
+			res.Violate("C08/migration-patch-rejected", fmt.Sprint(perr, pan), map[string]string{"p.patch": pt})
+			continue
+		}
+		for ti, tgt := range c08Targets {
+			res.Evals++
+			out, aerr, apan := core.ApplyParsed(f, "t.go", []byte(tgt))
+			if apan != "" {
+				res.Violate("C08/panic:"+core.PanicSignature(apan), fmt.Sprintf("Apply panicked (migration patch %d, target %d)\n%s", mi, ti, apan), map[string]string{"p.patch": pt, "in.go": tgt})
+				break
+			}
+			if aerr == nil && string(out) != tgt {
+				res.Ob("migration-rewrites", 1)
+			}
+		}
+		c08CLI(ctx, res, pt, fmt.Sprintf("migration patch %d as it stands", mi), -1)
+	}
+}
+
 func c08Init() {
 	c08Once.Do(func() {
 		for _, rc := range RawCases() {
@@ -79,6 +112,7 @@ func c08Init() {
 			"@@\n@@\n-\"foo\"\n+42\n\n@@\n@@\n import \"bar\"\n\n-x()\n+y()\n",
 			"@@\n@@\n-foo\n+bar.baz\n\n@@\n@@\n import \"example.com/old/foo\"\n\n-x()\n+y()\n",
 		)
+		c08Seeds = append(c08Seeds, c08Migrations...)
 		// targets chosen for construct coverage
 		c08Targets = []string{
 			"package p\n",
@@ -94,6 +128,14 @@ func c08Init() {
 			"package p\n\n//line other.go:100\nfunc f() (int, error) {\n\terr = foo(\n\t\t1,\n\t)\n\tif err != nil {\n\t\treturn 0, err\n\t}\n\tx := target(a,\n\t\tb)\n\tuse(x)\n//line gen.y:7\n\tfor i := 0; i < n; i++ {\n\t\tbump(i)\n\t}\n\t/*line :900*/ bump(\n\t\t2,\n\t)\n\treturn foo.Client{}, nil\n}\n",
 		)
 		c08Targets = append(c08Targets, "package a\n\nimport \"foo\"\n\nimport bar \"example.com/old/foo\"\n\nfunc f() {\n\tfoo.Bar(\"foo\", bar.X)\n\tx()\n}\n")
+		// targets of the migration patches: the migrated import is the file's only one and a documented declaration
+		// follows; an import block (or none) far into the file, behind a licence header much longer than any patch
+		licence := "// Copyright (c) Example, Inc.\n//\n" + strings.Repeat("// Permission is hereby granted, free of charge, to any person obtaining a copy of this software.\n", 30) + "\n"
+		c08Targets = append(c08Targets,
+			"package p\n\nimport \"example.com/old/foo\"\n\n// Run does things.\nfunc Run() {\n\tfoo.First(1)\n\tfoo.Second(2)\n}\n\n// Stop undoes them.\nfunc Stop() {}\n",
+			licence+"// Package p does things.\npackage p\n\nimport (\n\t\"fmt\"\n\t\"io/ioutil\"\n\t\"os\"\n\tfoo \"example.com/old/foo\"\n)\n\n// Load reads.\nfunc Load(n string) {\n\tb, err := ioutil.ReadFile(n)\n\tfmt.Println(b, err, os.Args, foo.First(1), foo.Client{})\n}\n",
+			licence+"package p\n\n// Load reads.\nfunc Load(n string) {\n\tlegacy(1)\n\tx()\n\tb, err := ioutil.ReadFile(n)\n}\n",
+		)
 		for s := int64(1); s <= 6; s++ {
 			gg := gen.NewG(rand.New(rand.NewSource(s)))
 			gg.Comment = s%2 == 0
@@ -199,7 +241,7 @@ func init() {
 		ID:    "C08",
 		Level: "exploration",
 		Rule: "cases: seed patches (every patch in testdata/* and examples/*, the schema libraries of this harness) x mutations {truncation at a random byte, token insertion/replacement from a dictionary of patch-significant tokens, span deletion, line duplication/swap/drop, " +
-			"prefix flip, random bytes, double mutation, concatenation of two seeds (the second change runs on the tree the first one built)}, grammar-generated well-formed but ill-typed patches (metavariables in wrong slots, elisions in non-list positions, mismatched sides), random byte strings, and well-formed patches with 6-13 elisions in one list against lists of 30-80 similar elements (the elision search must not be exponential); every patch that is accepted is applied to 12 target files chosen for construct coverage " +
+			"prefix flip, random bytes, double mutation, concatenation of two seeds (the second change runs on the tree the first one built)}, grammar-generated well-formed but ill-typed patches (metavariables in wrong slots, elisions in non-list positions, mismatched sides), random byte strings, and well-formed patches with 6-13 elisions in one list against lists of 30-80 similar elements (the elision search must not be exponential); step-by-step import migrations of 3-4 changes and import patches for files with long headers (also run unmutated); every patch that is accepted is applied to 18 target files chosen for construct coverage " +
 			"(library API in a worker subprocess; every 8th also through the CLI). Monitor: BEGIN/END worker protocol with per-call panic recovery, CPU-time budget (20 s per case, confirmed by a solo re-run under RLIMIT_CPU=60), RSS limit 3 GiB, CLI exit status / stderr classifier. " +
 			"Violation = panic, fatal error, exit status other than 0/1, CPU or memory exhaustion. non-trivial = mutant differs from its seed and is non-empty; distinct = (seed, mutation kind, outcome class).",
 		Assumptions: []string{"inputs are small (patch <= 8 KiB, targets <= 10 KiB): 20 CPU-seconds for 40 patches x 12 targets is three orders of magnitude above the normal cost"},
@@ -284,6 +326,9 @@ func runC08(ctx *core.Ctx, idx int) *core.Result {
 	}
 	if idx%10 == 4 {
 		c08DeepNesting(ctx, res, r)
+	}
+	if idx%100 == 2 {
+		c08Directed(ctx, res)
 	}
 	res.Sample(map[string]any{"seed_patch": core.Trunc(seed, 300), "mutations_per_case": c08PerCase})
 	return res
